@@ -48,11 +48,11 @@ def run(chk):
     jobs = []
     tw = os.path.join(wd, "w16.ndjson")
     subprocess.run([y16, "window-record", str(chk.seed), "8" if quick else "30", "60" if quick else "150", tw], env=env16, check=True, stdout=subprocess.DEVNULL)
-    tcfg = cfg_file("Trace_Window16.cfg", "CONSTANTS\n  PMAX = 65535\nSPECIFICATION Spec\nINVARIANT CapOK\nPOSTCONDITION TraceAccepted\nCHECK_DEADLOCK FALSE\n")
+    tcfg = cfg_file("Trace_Window16.cfg", "CONSTANTS\n  PMAX = 65535\nSPECIFICATION Spec\nINVARIANTS CapOK NotDone\nPOSTCONDITION TraceAccepted\nCHECK_DEADLOCK FALSE\n")
     jobs.append(("Trace_Window", tcfg, tw, "Window"))
     tt = os.path.join(wd, "tok16.ndjson")
     subprocess.run([y16, "tok-record", "sel", str(chk.seed), "7" if quick else "21", "300" if quick else "700", tt], env=dict(os.environ, YV_PMAX="300"), check=True, stdout=subprocess.DEVNULL)
-    kcfg = cfg_file("Trace_Tok16.cfg", "CONSTANTS\n  PMAX = 65535\n  SMM_TOTAL_ORDER = TRUE\n  REV_REBASE = TRUE\nSPECIFICATION Spec\nPOSTCONDITION TraceAccepted\nCHECK_DEADLOCK FALSE\n")
+    kcfg = cfg_file("Trace_Tok16.cfg", "CONSTANTS\n  PMAX = 65535\n  SMM_TOTAL_ORDER = TRUE\n  REV_REBASE = TRUE\nSPECIFICATION Spec\nINVARIANT NotDone\nPOSTCONDITION TraceAccepted\nCHECK_DEADLOCK FALSE\n")
     jobs.append(("Trace_Tok", kcfg, tt, "selection methods"))
     # numeric methods with lengths up to 999 (the O(n) definitions; the O(n^2) ones -- TRIMA, HMA, medians -- up to 299)
     tn = os.path.join(wd, "num16_SMA.ndjson")
@@ -62,7 +62,7 @@ def run(chk):
                        check=True, stdout=subprocess.DEVNULL)
         jobs.append(("Trace_Num", "Trace_Num.cfg", tn2, "numeric " + subj))
     # (c) single precision
-    ncfg = cfg_file("Trace_Num32.cfg", "CONSTANTS\n  F32 = TRUE\nSPECIFICATION Spec\nPOSTCONDITION TraceAccepted\nCHECK_DEADLOCK FALSE\n")
+    ncfg = cfg_file("Trace_Num32.cfg", "CONSTANTS\n  F32 = TRUE\n  CHECK_NONNEG = FALSE\nSPECIFICATION Spec\nINVARIANT NotDone\nPOSTCONDITION TraceAccepted\nCHECK_DEADLOCK FALSE\n")
     for i, fam in enumerate(["fin", "rec", "fin", "rec"][: 2 if quick else 4]):
         tf = os.path.join(wd, "f32_%d.ndjson" % i)
         subprocess.run([f32, "num-record", fam, str(chk.seed * 10 + i), "19", "60" if quick else "200", "0", tf], check=True, stdout=subprocess.DEVNULL)
